@@ -8,8 +8,8 @@ namespace Pj.Csv
 
 /-- text layer: every matrix of strings — delimiters, quotes, carriage returns and line feeds included — is read
     back exactly as written -/
-theorem C13_text (rows : List (List (List Char))) : parse (encodeFile rows) = some rows := by
-  sorry
+theorem C13_text (rows : List (List (List Char))) : parse (encodeFile rows) = some rows :=
+  parse_encodeFile rows
 
 /-- a record the writer can be given: formatted cells are non-empty, ids contain no ';', custom columns are distinct,
     do not clash with the standard columns and contain no byte-order mark -/
@@ -27,19 +27,46 @@ structure WfRec (r : Rec) : Prop where
 /-- field layer: reading a written file returns the records, empty text read as None, custom cells per file column -/
 theorem C13_fields (recs : List Rec) (hw : ∀ r ∈ recs, WfRec r) :
     readCsv (writeCsv recs) = some (recs.map (normalise (customColumns recs))) := by
-  sorry
+  have hg : GoodCols (customColumns recs) := goodCols_customColumns recs (fun r hr => (hw r hr).colsStd)
+  exact readCsv_writeCsv recs _ (fun r hr =>
+    have w := hw r hr
+    readRow_rowCells_normalise hg r w.startNe w.endNe w.estNe w.spentNe w.pidNe w.preds)
 
 /-- one round trip is a fixpoint: what was read back is reproduced exactly by a further write/read cycle, hence the
     file written from it is reproduced byte for byte -/
 theorem C13_fixpoint (recs r1 : List Rec) (hw : ∀ r ∈ recs, WfRec r) (h : readCsv (writeCsv recs) = some r1) :
     readCsv (writeCsv r1) = some r1 ∧
     ∀ r2, readCsv (writeCsv r1) = some r2 → writeCsv r2 = writeCsv r1 := by
-  sorry
+  have hg : GoodCols (customColumns recs) := goodCols_customColumns recs (fun r hr => (hw r hr).colsStd)
+  have hr1 : r1 = recs.map (normalise (customColumns recs)) := by
+    rw [C13_fields recs hw] at h; exact (Option.some.inj h).symm
+  -- what was read back is again writable
+  have hw1 : ∀ r ∈ r1, WfRec r := by
+    intro r hr
+    rw [hr1] at hr
+    obtain ⟨r0, hr0, rfl⟩ := List.mem_map.mp hr
+    have w := hw r0 hr0
+    exact { idNe := w.idNe, startNe := w.startNe, endNe := w.endNe, estNe := w.estNe, spentNe := w.spentNe,
+            pidNe := w.pidNe, preds := w.preds,
+            cols := by rw [custom_names_normalise]; exact hg.1,
+            colsStd := by rw [custom_names_normalise]; exact hg.2 }
+  have hfix : readCsv (writeCsv r1) = some r1 := by
+    rw [C13_fields r1 hw1]
+    by_cases hne : recs = []
+    · subst hne; subst hr1; rfl
+    · have hc : customColumns r1 = customColumns recs := by
+        rw [hr1]; exact customColumns_normalise _ hg.1 recs hne
+      rw [hc, hr1, List.map_map]
+      congr 1
+      exact List.map_congr_left (fun r _ => normalise_idem _ r)
+  refine ⟨hfix, fun r2 h2 => ?_⟩
+  rw [hfix] at h2
+  rw [← Option.some.inj h2]
 
 /-- a UTF-8 byte-order mark in front of the first header cell does not change how a row is read -/
 theorem C13_bom (hdr : List Str) (h0 : Str) (row : List Str) :
-    readRow (('﻿' :: h0) :: hdr) row = readRow (h0 :: hdr) row := by
-  sorry
+    readRow (('﻿' :: h0) :: hdr) row = readRow (h0 :: hdr) row :=
+  readRow_bom hdr h0 row
 
 /-- ids of a forest, depth first -/
 def Tree.ids : Tree → List Str
@@ -52,7 +79,7 @@ where
 /-- structure layer: hierarchy and sibling order survive the trip through (id, parent_id) rows, for any depth, when
     ids are unique (C05) -/
 theorem C13_structure (f : List Tree) (hn : ((Tree.rowsList none f).map (·.1)).Nodup) :
-    rebuildForest (Tree.rowsList none f) = f := by
-  sorry
+    rebuildForest (Tree.rowsList none f) = f :=
+  rebuildForest_rows f hn
 
 end Pj.Csv
